@@ -1391,6 +1391,12 @@ func (o *ovsdbClient) handleDisconnectNotification() {
 	o.rpcMutex.Unlock()
 
 	for _, db := range o.databases {
+		// lock order: monitorsMutex, cacheMutex, modelMutex (as in Monitor
+		// and connect)
+		db.monitorsMutex.Lock()
+		defer db.monitorsMutex.Unlock()
+		db.monitors = make(map[string]*Monitor)
+
 		db.cacheMutex.Lock()
 		defer db.cacheMutex.Unlock()
 		db.cache = nil
@@ -1401,10 +1407,6 @@ func (o *ovsdbClient) handleDisconnectNotification() {
 		db.modelMutex.Lock()
 		defer db.modelMutex.Unlock()
 		db.model = model.NewPartialDatabaseModel(db.model.Client())
-
-		db.monitorsMutex.Lock()
-		defer db.monitorsMutex.Unlock()
-		db.monitors = make(map[string]*Monitor)
 	}
 	o.metrics.numMonitors.Set(0)
 
